@@ -58,6 +58,8 @@ def creds_reps(sys, dom, proj, roles, spelling, extra_domains=False):
     d = {'roles': list(roles), 'user_id': 'u'}
     if sys:
         d['system' if spelling == 'system' else 'system_scope'] = 'all'
+        if spelling == 'system' and extra_domains:
+            d['system_scope'] = None
     if dom:
         d['domain_id'] = 'd1'
     if proj:
